@@ -402,6 +402,38 @@ def packages_are_not_identified_by_name(F, res, rule="T10"):
            "answers that are not a fresh allocation: %d; parameters that decide: %s (2 = display_name, 3 = gleam_toml)" % (len(other), decided_by))
 
 
+def name_clashes_and_duplicate_entries_are_settled_one_way(F, res, rule="T11"):
+    """T11: two places each settle a tie, and their callers lean on how. (a) ModuleMap::insert overwrites: Package::visible_modules
+    inserts the modules of the dependencies first and the package's own last, so that a package's own `util` wins over a
+    dependency's - an insert that keeps the entry it finds hands `import util` to the dependency. (b) source_root_package answers
+    with the *first* entry of the graph whose manifest lies in the root: the server re-assembles every known root as a project of
+    its own after the real graph, so later entries for the same root exist and have no dependencies - the last one resolves
+    nothing inside a fetched package."""
+    KEEP = ("entry", "or_insert", "or_insert_with", "or_default", "try_insert", "get_or_insert", "get_or_insert_with", "contains_key")
+    ins = F.fns.get("ide::base::ModuleMap::insert")
+    if ins is None or not ins.blocks:
+        res.anchor_missing(rule, "ide::base::ModuleMap::insert")
+    else:
+        calls = [FL.short(callee(t) or callee_def(t) or "") for _b, t in ins.calls()]
+        stores = [c for c in calls if c.rsplit("::", 1)[-1] == "insert"]
+        keeps = [c for c in calls if c.rsplit("::", 1)[-1] in KEEP]
+        switches = [b for b in sorted(ins.reachable()) if ins.term(b)["k"] == "switch"]
+        res.ob(rule, "module-map/insert-overwrites", "ModuleMap::insert stores the new file under the name unconditionally (the last registration of a name wins: "
+               "a package's own module over a dependency's)", len(stores) >= 2 and not keeps and not switches, where=ins.loc(),
+               how="stores %s; keep-existing calls %s; decisions %d" % (stores, keeps, len(switches)))
+    sp = F.fns.get("ide::base::source_root_package")
+    if sp is None or not sp.blocks:
+        res.anchor_missing(rule, "ide::base::source_root_package")
+        return
+    unit = [sp] + [F.fns[c] for c in F.closures_of(sp.path) if c in F.fns]
+    calls = {FL.short(callee(t) or callee_def(t) or "").rsplit("::", 1)[-1] for u in unit for _b, t in u.calls()}
+    lastish = sorted(calls & {"last", "next_back", "rev", "max", "max_by", "max_by_key", "min", "min_by", "min_by_key", "rfind", "rposition", "collect", "fold", "reduce", "nth_back"})
+    firstish = sorted(calls & {"next", "find", "find_map", "position"})
+    loops = bool(sp.back_edges())
+    res.ob(rule, "source-root-package/first-entry", "source_root_package answers with the first entry of the graph that matches (no last / max / collected map)",
+           (bool(firstish) or loops) and not lastish, where=sp.loc(), how="selecting calls: first-like %s, last-like %s, explicit loop %s" % (firstish, lastish, loops))
+
+
 def run(F, res, tier):
     direct_dependencies_only(F, res)
     lookups_go_through_visible_modules(F, res)
@@ -409,6 +441,7 @@ def run(F, res, tier):
     path_dependencies_are_normalised(F, res)
     every_project_is_assembled_with_names_of_its_own(F, res)
     packages_are_not_identified_by_name(F, res)
+    name_clashes_and_duplicate_entries_are_settled_one_way(F, res)
     from rules import c08 as _c08, c15 as _c15, c05 as _c05, c07 as _c07
     _c08.locality_comes_from_the_registered_path(F, res, rule="T4")      # V9 + V10 (longest root first)
     _c15.files_lie_below_their_root(F, res, rule="T4")                  # M10
